@@ -644,6 +644,9 @@ func (st *StateDB) Copy() *StateDB {
 			state.stateObjects[addr] = object.deepCopy(state)
 			state.stateObjectsDirty[addr] = struct{}{}
 			state.stateObjectsPending[addr] = struct{}{} // Mark the copy pending to force external (account) commits
+			// keep the object journal-dirty in the copy as well, so that the copy's next Finalise
+			// removes self-destructed / empty objects exactly as the original's will
+			state.journal.dirties[addr] = st.journal.dirties[addr]
 		}
 	}
 	// Above, we don't copy the actual journal. This means that if the copy is copied, the
